@@ -43,7 +43,9 @@ type defaultSpreaderSimple struct {
 func (ds *defaultSpreaderSimple) spread(w io.Writer, roots []*Node) error {
 	ds.w = w
 	for _, root := range roots {
-		ds.spreadBranch(root)
+		if err := ds.spreadBranch(root); err != nil {
+			return err
+		}
 	}
 	return nil
 }
@@ -64,21 +66,29 @@ func (ds *defaultSpreaderSimple) spreadIter(w io.Writer, rootIter iter.Seq2[*Nod
 				return
 			}
 
-			ds.spreadBranch(root)
+			if err := ds.spreadBranch(root); err != nil {
+				yield(err)
+				return
+			}
 		}
 	}
 }
 
-func (ds *defaultSpreaderSimple) spreadBranch(current *Node) {
+func (ds *defaultSpreaderSimple) spreadBranch(current *Node) error {
 	ret := current.name + "\n"
 	if !current.isRoot() {
 		ret = current.branch() + " " + current.name + "\n"
 	}
-	fmt.Fprint(ds.w, ret)
+	if _, err := fmt.Fprint(ds.w, ret); err != nil {
+		return err
+	}
 
 	for _, child := range current.children {
-		ds.spreadBranch(child)
+		if err := ds.spreadBranch(child); err != nil {
+			return err
+		}
 	}
+	return nil
 }
 
 type formattedSpreaderSimple[T sitter] struct {
@@ -264,7 +274,10 @@ func (cs *colorizeSpreaderSimple) spreadIter(w io.Writer, rootIter iter.Seq2[*No
 
 			cs.fileCounter.reset()
 			cs.dirCounter.reset()
-			cs.write(w, fmt.Sprintf("%s\n%s\n", cs.spreadBranch(root), cs.summary()))
+			if err := cs.write(w, fmt.Sprintf("%s\n%s\n", cs.spreadBranch(root), cs.summary())); err != nil {
+				yield(err)
+				return
+			}
 		}
 	}
 }
